@@ -873,6 +873,8 @@ class Polyhedron(Shape3D):
         #      for i, k in enumerate(q):
         #          form_factor[i] *= np.exp(-1j * np.dot(
         #              k, rowan.rotate(rowan.inverse(self.orientation), self.center)))
+        # Integer wave vectors would overflow in the squares below.
+        q = np.asarray(q, dtype=np.float64)
         form_factor = np.zeros((len(q),), dtype=np.complex128)
 
         # Handle zeros q vector cases up front to allow looping over faces without
